@@ -7,13 +7,25 @@ TECH = 'symbolic execution of the real code (rustc MIR of /repo, regenerated per
 NOTE = ('Trusted: rustc nightly MIR dump, the mirsym interpreter and its Python models of std APIs (every explored path\'s solver witness is re-run '
         'through the natively compiled crate and must agree, else the check is inconclusive), z3. Bounds are per query in the evidence file.')
 CLAIMED = {
- 'C01': ('model_checking', 'Bounded model checking of parse(format(v)) == v on the real constructors, formatter, parser and ==: value shapes and numbers enumerated (all 30 constructors, nestings, 4 punctuations, 8 stamps, truths, budgets), atom names symbolic (all well-formed 1-char names; thorough: 2-char) in all 3 formats. Holds for every name within those shapes; deeper nesting and longer names are outside.', '§4 C01'),
- 'C04': ('model_checking', 'Bounded model checking of totality: every string up to N chars over all Unicode scalar values (N per entry point in evidence), formatter-produced samples cut/corrupted at every position, and the error window for every 64-bit cursor value; panics and step-budget overruns are replayed natively.', '§4 C04'),
- 'C08': ('model_checking', 'parse_multi vs parse on symbolic histories (every fragment kind with an arbitrary char at every position, all short histories), parse vs parse_chars vs repeated parse on all short strings, lexical parser on a reused vs fresh format instance.', '§4 C08'),
- 'C03': ('model_checking', 'Both pipelines (enum parser; lexical parser + fold) executed on the same symbolic text for every value shape incl. the four derived copulas, sentences and tasks, in all three formats; results must agree with each other and with the constructor-built value, for every well-formed 1-char name.', '§4 C03'),
- 'C09': ('model_checking', 'Token layouts of value shapes joined with spacing patterns (none / 1 / 2 spaces at every boundary; thorough: k spaces at each single boundary; tab/newline/U+3000 for the lexical pipeline) parsed by the real enum parser and by lexical parser + fold; result must equal the value for every well-formed name.', '§4 C09'),
- 'C12': ('model_checking', 'Every Ok result of the enum parser and of lexical parse + fold on all short strings and on corrupted samples is checked against the well-formedness predicate under the path condition (symbolic numbers decided by the solver) and then printed by all three formatters and the Typst renderer.', '§4 C12'),
+ 'C01': ('Bounded model checking of parse(format(v)) == v on the real constructors, formatter, parser and ==: value shapes and numbers enumerated (all 30 constructors, nestings, 4 punctuations, 8 stamps, truths, budgets), atom names symbolic (every well-formed 1-char name; thorough: 2-char, all Unicode) in all 3 formats.', 'C01'),
+ 'C02': ('Lexical formatter + lexical parser (incl. nar_dev_utils dictionaries) executed on directly built lexical values over the format\'s own vocabulary (every keyword in its role, arities, nestings, 0..4 truth/budget entries) with symbolic identifier names; exact structural identity required.', 'C02'),
+ 'C03': ('Both pipelines (enum parser; lexical parser + fold) executed on the same symbolic text for every value shape incl. the four derived copulas, sentences and tasks, in all three formats; results must agree with each other and with the constructor-built value.', 'C03'),
+ 'C04': ('Totality: every string up to N chars over all Unicode scalar values through every enum entry point (parse, parse_chars, parse_multi, truth/budget/stamp/punctuation), formatter samples cut/corrupted at every position, and the error window for every 64-bit cursor value; panics and step-budget overruns are replayed natively.', 'C04'),
+ 'C05': ('Totality of the lexical parser (all short strings, corrupted samples) and of try_fold_into on lexical values with arbitrary strings in every field (unknown keywords, wrong arities, missing/multiple placeholders, NaN/inf/huge/non-numeric numbers, malformed stamps).', 'C05'),
+ 'C06': ('Real PartialEq for Term on 211 pairs/triples of shapes with symbolic names/numbers: eq <=> reference semantic equality, symmetric, reflexive, transitive; includes the Hash obligation because std set equality depends on it.', 'C06'),
+ 'C07': ('Real Hash for Term with a collision-free (uninterpreted-function) hasher model: whenever == holds under the path condition the solver must not be able to make the two hash terms differ.', 'C07'),
+ 'C08': ('parse_multi vs parse on symbolic histories (every fragment kind with an arbitrary char, all short histories), parse vs parse_chars vs repeated parse on all short strings, lexical parser on a reused vs fresh format instance.', 'C08'),
+ 'C09': ('Token layouts of value shapes joined with spacing patterns (none / 1 / 2 spaces everywhere; thorough: k spaces at each single boundary; tab/newline/U+3000 for the lexical pipeline) parsed by the real enum parser and by lexical parser + fold; result must equal the value.', 'C09'),
+ 'C10': ('Both pipelines on sugar texts: four derived copulas vs desugaring constructors, images with several placeholders, interval numerals with symbolic digits (solver compares the value), placeholder with identifier suffix.', 'C10'),
+ 'C11': ('ASCII keyword tables (enum const and lexical instance from the current MIR) equal the OpenNARS lexicon; enum and lexical ASCII formatter outputs are accepted, with the same kind and tree, by a recogniser transcribed from the README PEG and by the real lexical parser (recogniser evaluated on each path witness).', 'C11'),
+ 'C12': ('Every Ok result of the enum parser and of lexical parse + fold on all short strings and corrupted samples satisfies the well-formedness predicate under the path condition (symbolic numbers decided by the solver) and is printed by all three formatters and the Typst renderer without panic.', 'C12'),
+ 'C13': ('Truth/Budget constructors, accessors and EvidentNumber (incl. nar_dev_utils ZeroOneFloat) executed on symbolic IEEE doubles in z3\'s FP theory: every bit pattern, arities 0..5; outcome <=> all consumed components in [0,1].', 'C13'),
+ 'C14': ('All component accessors, extraction, category/capacity and their predicates executed on every constructor shape (images with every index, symbolic index), plus lexical extraction and category vs folded category; mutual consistency against the NAL table.', 'C14'),
+ 'C15': ('transform_mid_result and lexical MidParseResult::fold on all 32 slot patterns; enum and lexical cast API with symbolic numbers; printed cast tasks parse to tasks with empty budget in both parsers.', 'C15'),
+ 'C16': ('Typst formatter executed on value shapes with symbolic names: no leading/trailing/doubled whitespace (solver over output chars) and no two semantically different values of ~2700 shape pairs can render equal for any names.', 'C16'),
+ 'C17': ('set_atom_name / get_atom_name / push_components executed on all 30 constructors with every new name of 0..2 (3) arbitrary chars, boundary numerals, and pushed atoms with arbitrary names; outcome and post-state vs the reference model, unchanged on failure.', 'C17'),
 }
+CLAIMED = {k: ('model_checking', v[0] + ' Bounded: shapes/lengths/number sets are listed per query in the evidence; within them the solver covers every value.', '§2 ' + v[1]) for k, v in CLAIMED.items()}
 checks = []
 for pid in props:
     if pid in CLAIMED:
